@@ -79,9 +79,15 @@ def gen_case(r: Any, idx: int) -> dict:
             actions.append([t, "connect", i, c])
             if r.random() < 0.4:
                 actions.append([t + r.choice([1, 5, 10, 12, 20]), "disconnect", i, c])
+    # a subscriber of one application that subscribes a new observer to ANOTHER application from inside its first on_next
+    # (re-entrant cross subscription): whatever the shared operator keeps per object (a trampoline, a lock) is then in use
+    nested = None
+    if r.random() < 0.25:
+        i = r.randrange(nsrc)
+        nested = {"t": r.choice(GRID), "app": i, "inner_app": (i + 1) % nsrc}
     r.shuffle(actions)
     actions.sort(key=lambda a: a[0])   # stable: same-instant order is the shuffled order
-    return {"entry": name, "P": P, "ups": ups, "extras": extras, "actions": actions, "domain": domain}
+    return {"entry": name, "P": P, "ups": ups, "extras": extras, "actions": actions, "domain": domain, "nested": nested}
 
 
 def describe(case: dict, connectable: bool | None = None) -> dict:
@@ -144,6 +150,30 @@ def execute(case: dict, shared: bool) -> Run:
 
     for a in case["actions"]:
         lab.at(a[0], lambda a=a: act(a))
+    nested = case.get("nested")
+    if nested:
+        fired = [False]
+
+        def on_recv(kind: str, value: Any, o: Any) -> None:
+            if kind == "N" and not fired[0]:
+                fired[0] = True
+                inner = lab.observer("app%d.sub8" % nested["inner_app"])
+                run.obs[(nested["inner_app"], 8)] = inner
+                lab.add("note", "nested-subscribe-begin")
+                try:
+                    inner.subscribe_to(apps[nested["inner_app"]])
+                except Exception as ex:
+                    run.raised[("sub", nested["inner_app"], 8)] = ex
+                lab.add("note", "nested-subscribe-end")
+
+        def nested_sub() -> None:
+            o = lab.observer("app%d.sub9" % nested["app"], on_recv=on_recv)
+            run.obs[(nested["app"], 9)] = o
+            try:
+                o.subscribe_to(apps[nested["app"]])
+            except Exception as ex:
+                run.raised[("sub", nested["app"], 9)] = ex
+        lab.at(nested["t"], nested_sub)
     lab.run()
     run.over_budget = bool(lab.over_budget)
     return run
@@ -168,6 +198,9 @@ def observed(run: Run) -> dict:
     for (src, sid), (a, b) in sorted(intervals(run.lab).items()):
         d["source %s subscription %d [subscribed, unsubscribed]" % (src, sid)] = (a, b)
     d["exceptions escaped to the scheduler"] = len(run.lab.escaped_to_scheduler)
+    # the global order of deliveries (who was called inside whose callback is visible only here: the virtual times are equal)
+    d["order of deliveries"] = tuple((e[3], e[4]) if e[2] == "recv" else ("note", e[3]) for e in run.lab.ev
+                                     if e[2] == "recv" or (e[2] == "note" and str(e[3]).startswith("nested-")))
     return d
 
 
